@@ -4,6 +4,7 @@ import (
 	"bytes"
 	"context"
 	"encoding/binary"
+	"errors"
 	"fmt"
 	"io"
 	"math/rand"
@@ -435,6 +436,41 @@ func (w *countingWriter) WriteBinary(bs []byte) (int, error) { w.n += len(bs); r
 func (w *countingWriter) WrittenLen() int                    { return w.n }
 func (w *countingWriter) Flush() error                       { return nil }
 
+// refusingWriter accepts everything except its failAt-th call (Malloc or WriteBinary), which returns an error.
+type refusingWriter struct {
+	failAt     int
+	calls      int
+	n          int
+	after      int
+	failedKind string
+}
+
+var errRefused = errors.New("writer refused")
+
+func (w *refusingWriter) Malloc(n int) ([]byte, error) {
+	k := w.calls
+	w.calls++
+	if k == w.failAt {
+		w.failedKind = "Malloc"
+		return nil, errRefused
+	}
+	w.n += n
+	return make([]byte, n), nil
+}
+
+func (w *refusingWriter) WriteBinary(bs []byte) (int, error) {
+	k := w.calls
+	w.calls++
+	if k == w.failAt {
+		w.failedKind = "WriteBinary"
+		return 0, errRefused
+	}
+	w.n += len(bs)
+	return len(bs), nil
+}
+func (w *refusingWriter) WrittenLen() int { return w.n }
+func (w *refusingWriter) Flush() error    { return nil }
+
 func monC06(c *drv.Ctx) {
 	if !c.Slow() && c.Flavour == "plain" {
 		// parameters whose header info exceeds 2^32 bytes (the limit check must not be fooled by the low 32 bits)
@@ -481,6 +517,38 @@ func monC06(c *drv.Ctx) {
 			cs.Sample(p.full())
 		}
 	})
+	// (1b) a writer that refuses its k-th call, for every k: no complete frame can have been written, so
+	// Encode must report an error (and not panic); the error it reports must not hide the writer's refusal as success
+	c.Stage("refusing-writer", c.Pick(3000, 60000), false, func(cs *drv.Case) {
+		p := genTTHParams(cs.R)
+		if p.infoSize() > ref.TTHMaxHeaderSize {
+			p.Str, p.Int = map[string]string{"k": "v"}, map[uint16]string{1: "a", 2: ""}
+		}
+		ep := ttheader.EncodeParam{Flags: ttheader.HeaderFlags(p.Flags), SeqID: p.Seq, ProtocolID: ttheader.ProtocolID(p.Proto), IntInfo: p.Int, StrInfo: p.Str}
+		probe := &refusingWriter{failAt: -1}
+		if _, err := ttheader.Encode(context.Background(), ep, probe); err != nil {
+			cs.Fail("encode-error", nil, M{"params": p.full(), "message": "Encode failed on a writer that accepts everything: " + err.Error()})
+			return
+		}
+		calls := probe.calls
+		cs.Desc = M{"params": p.desc(), "writer_calls": calls}
+		for k := 0; k < calls; k++ {
+			w := &refusingWriter{failAt: k}
+			_, err := ttheader.Encode(context.Background(), ep, w)
+			if err == nil {
+				cs.Fail("encode-succeeded-on-refusing-writer", M{"call_kind": w.failedKind}, M{"params": p.full(), "refused_call": k, "of": calls, "refused": w.failedKind,
+					"message": "the writer refused one piece of the frame, Encode reported success"})
+				break
+			}
+			if w.calls > k+1 && w.after == 0 {
+				w.after = w.calls - k - 1
+			}
+			cs.C.Obs("refused writer calls", 1)
+			cs.C.Obs("refused "+w.failedKind, 1)
+		}
+		cs.Count(calls > 3, "refuse", fmt.Sprint(p.Int, p.Str))
+	})
+
 	// (2) flags: all 65536 (thorough) / 4096 stride (quick); protocol ids: all 256
 	nf := c.Pick(4096, 65536)
 	c.Stage("all-flags", nf, c.Thorough(), func(cs *drv.Case) {
